@@ -1,5 +1,6 @@
 import Norad.Spec.Ufo3Vocab
 import Norad.Spec.Ufo3Read
+import Norad.Spec.DSVocab
 import Norad.Generated.Vocab
 import Norad.Lemmas.C05
 import Norad.Lemmas.C05Bridge
@@ -225,6 +226,48 @@ example (g : GlyphD) : specRead unaryLex (specWrite unaryRender g) = some g :=
 
 example : fontinfoFields.length = 108 ∧ fontinfoKeys.length = 108 := by decide
 
+/-! ## the designspace document (also listed under C18) -/
+
+/-- the element each struct of `src/designspace.rs` stands for -/
+def dsStructElement : List (String × String) := [
+  ("DesignSpaceDocument", "designspace"), ("Axis", "axis"), ("AxisMapping", "map"), ("Rules", "rules"),
+  ("Rule", "rule"), ("Substitution", "sub"), ("ConditionSet", "conditionset"), ("Condition", "condition"),
+  ("Source", "source"), ("Instance", "instance"), ("Dimension", "dimension")]
+
+/-- fields whose Rust identifier is not the name of the attribute / element they stand for; every other field must be
+    serialised under its own identifier -/
+def dsFieldSpecial : List ((String × String) × String) := [
+  (("Rules", "rules"), "rule"), (("Rule", "condition_sets"), "conditionset"), (("Rule", "substitutions"), "sub"),
+  (("ConditionSet", "conditions"), "condition")]
+
+def dsExpectedName (struct field : String) : String := (dsFieldSpecial.lookup (struct, field)).getD field
+
+/-- one struct of designspace.rs: its element, every field under the name the specification gives what the field holds
+    (so that two swapped renames fail although the set of names is unchanged), attributes among the element's
+    attributes, children among its children, every attribute of the specification covered -/
+def dsStructOk (r : String × String × List (String × String × Bool)) : Bool :=
+  match dsStructElement.lookup r.1 with
+  | none => false
+  | some el =>
+    (r.2.1 == "" || r.2.1 == el) &&
+    (r.2.2.all fun f =>
+      f.2.1 == dsExpectedName r.1 f.1 &&
+      (if f.2.2 then (DSVocab.attrsOf el).contains f.2.1 else (DSVocab.childrenOf el).contains f.2.1)) &&
+    sameSet ((r.2.2.filter (·.2.2)).map (·.2.1)) (DSVocab.attrsOf el) &&
+    sameSet ((r.2.2.filter (!·.2.2)).map (·.2.1)) (DSVocab.childrenOf el)
+
+/-- **every attribute and element name of norad's designspace reader/writer (serde renames of `src/designspace.rs`,
+regenerated on every run) is the designspace specification's name for what the field holds**: axis
+tag/name/minimum/maximum/default/hidden/values, map input/output, source filename/name/familyname/stylename/layer,
+instance name/familyname/stylename/filename/postscriptfontname/stylemapfamilyname/stylemapstylename, dimension
+name/xvalue/yvalue/uservalue, rules processing, rule name, condition name/minimum/maximum, sub name/with; list wrappers;
+`processing` spellings.  A symmetric swap of two renames (invisible to a round trip) fails here. -/
+theorem designspace_attributes_are_spec_attributes :
+    (∀ r ∈ dsFields, dsStructOk r = true) ∧
+    sameSet (dsFields.map (·.1)) (dsStructElement.map (·.1)) = true ∧
+    (∀ w ∈ dsWrappers, (DSVocab.childrenOf w.1).contains w.2 = true) ∧
+    sameSet dsProcessing DSVocab.processingValues = true := by decide
+
 /-! ## tie to the glif builder's models of norad (C02 `encodeGlif`, C12 `parseGlif`) -/
 
 section
@@ -326,6 +369,9 @@ theorem parseCodec0 : ParseCodec R0 render0 ok0 := by
     obtain ⟨h1, _⟩ := h1; obtain ⟨h2, _⟩ := h2; obtain ⟨h3, _⟩ := h3; obtain ⟨h4, _⟩ := h4
     cases h1; cases h2; cases h3; cases h4; decide
   · intro c hv; simpa [render0] using parseHex_showCodepoint hv.1 hv.2
+
+-- the element theorems apply (their codec hypothesis is satisfiable)
+example := norad_parser_reads_spec_writer parseCodec0 []
 
 -- the encoder theorem applies to the glif builder's sample glyph `g0` (its hypotheses are satisfiable)
 example : specRead lex0 (encTree F0 (fun _ => "lib") g0) = some (descGlyph (fun _ => "lib") (preG F0 nc0 g0)) :=
